@@ -797,6 +797,50 @@ class C11(Prop):
     def project(self, op, line): return line
     def nontrivial(self, op, line): return line.startswith("TXT") and len(line) > 4
 
+class E2EProp(Prop):
+    """properties of the client binaries: theorems over the loop / handler model + end-to-end scenarios on the real binaries"""
+    stateful = True
+    level = "proof"
+    technique = ("Lean 4 theorems over a model of the client's loop / handlers + end-to-end execution of the real binaries (loopback TCP feed with scripted "
+                 "segmentation and gaps, pty with scripted keys / mouse / resizes, reconstructed screen)")
+    def ops(self, rng, tier): return []
+    def scenarios(self, rng, tier, report): pass
+    def extra_checks(self, ctx, ops, impl):
+        sys_path = os.path.join(os.path.dirname(os.path.dirname(os.path.abspath(__file__))), "e2e")
+        import sys
+        if sys_path not in sys.path: sys.path.insert(0, sys_path)
+        import e2elib
+        ok, log = e2elib.build_apps()
+        if not ok:
+            ctx.broken.append("client binaries do not build: " + (re.findall(r"error[^\n]*", log) or ["?"])[0]); return []
+        failing = []
+        seen = []
+        def report(name, ok, info):
+            seen.append(name)
+            ctx.distinct.add(hash(name)); ctx.count("scenario " + name.split("/")[0] + "/" + re.sub(r"\d+", "#", name.split("/")[1]))
+            if len(ctx.samples) < 6: ctx.samples.append({"scenario": name, "ok": ok, "observed": {k: (str(v)[:120]) for k, v in list(info.items())[:4]}})
+            if not ok: failing.append((name, "end-to-end scenario failed: " + json.dumps(info, default=str)[:1500], json.dumps(info, default=str)[:1500], None, len(seen)))
+        self.scenarios(Rng(ctx.seed), ctx.tier, report)
+        ctx.evals = len(seen)
+        return failing
+
+import os, json
+
+class C16(E2EProp):
+    id = "C16"; module = "Adsb.Theorems.C16"; design_ref = "5/C16"
+    deps = []
+    rule = ("a corpus feed (valid frames of 3 aircraft + 20 kinds of malformed lines: empty, 1-2 bytes, non-hex, odd length, non-ASCII, invalid UTF-8, all-zero, "
+            "unsupported format, 300 bytes, CRLF) sent whole / per line / per line with 160 ms gaps / byte by byte / random chunks with gaps; every split "
+            "point of one line with a 170 ms gap; malformed-only feed; 1090: rendered frames on stdout = the decodable complete lines in order; radar (pty): "
+            "message counts per aircraft on the Airplanes tab, clean exit on disconnect, reconnect with --retry-tcp keeps the aircraft; "
+            "non-trivial = distinct scenarios")
+    claim = "the loop processes exactly the complete lines of the stream once, in order, for every segmentation and delay pattern; parse_line total (theorems); e2e on the binaries"
+    note = "partial: TCP / BufReader / socket-timeout semantics are modelled as (chunk | gap > 50 ms | eof) events and exercised with gaps of 0 or >= 150 ms; gaps near 50 ms are outside the model"
+    def scenarios(self, rng, tier, report):
+        import clients
+        clients.check_1090(rng, tier, report)
+        clients.check_radar_stream(rng, tier, report)
+
 class C19(Prop):
     id = "C19"; module = "Adsb.Theorems.C19"; design_ref = "5/C19"
     deps = ["shape:ReaderCrc::read", "shape:ReaderCrc::seek", "shape:Frame::from_reader", "shape:Frame::read_crc"]
@@ -899,5 +943,5 @@ class C01(Prop):
     def nontrivial(self, op, line): return line.startswith(("OK", "TXT", "VEL some", "POS some", "ADDED"))
 
 ALL = {}
-for c in [C01, C02, C03, C04, C05, C06, C07, C08, C09, C10, C11, C12, C13, C14, C15, C19, C20]:
+for c in [C01, C02, C03, C04, C05, C06, C07, C08, C09, C10, C11, C12, C13, C14, C15, C16, C19, C20]:
     ALL[c.id] = c
